@@ -30,12 +30,15 @@ def run(ctx):
         f.write("\n".join(lines) + "\n")
     log("[gen] %d walks emitted by TLC" % len(lines))
     ctx.extra["walks"] = len(lines)
-    b = ctx.build("c13", "c13.cpp")
-    if b:
-        tr = ctx.scratch.path("c13.ndjson")
-        ok, out = ctx.run_harness(b, [tr, walks, ctx.tier], tr)
-        if ok:
-            ctx.validate(TRACE_MODULE, tr, label="pure", min_lines=500, timeout=3000)
+    # the quaternion constructor's argument order and the storage order are configuration dependent (GLM_FORCE_QUAT_DATA_XYZW / WXYZ):
+    # the same walks through builds with either macro; the harness only uses qua::wxyz() and member names, so the events are comparable
+    for label, name, flags in [("pure", "c13", []), ("quat-xyzw-ctor", "c13_xyzw", ["-DGLM_FORCE_QUAT_DATA_XYZW"]), ("quat-wxyz-storage", "c13_wxyz", ["-DGLM_FORCE_QUAT_DATA_WXYZ"])]:
+        b = ctx.build(name, "c13.cpp", flags=flags, label="c13 " + label)
+        if b:
+            tr = ctx.scratch.path(name + ".ndjson")
+            ok, out = ctx.run_harness(b, [tr, walks, ctx.tier if label == "pure" else "quick"], tr)
+            if ok:
+                ctx.validate(TRACE_MODULE, tr, label=label, min_lines=500, timeout=3000)
     ctx.rule("walks = rational unit quaternion x (14 values) x rational axis (11) x step angle psi with tan(psi/2) = p/q "
              "(2^-1..2^-30: 53 degrees down to 1.9e-9 rad, on both sides of the linear-fallback threshold of float and double; "
              "Pythagorean pairs; one step of up to pi - 1.9e-9 rad; steps next to a right angle; psi = 0; the exact quarter turn) x m = 1..6 "
